@@ -261,6 +261,13 @@ func mergeValues(opts *options, old, v value) (value, Error) {
 func normalize(opts *options, from interface{}) (*Config, Error) {
 	vFrom := chaseValue(reflect.ValueOf(from))
 
+	if vFrom.Type() == tConfig && !vFrom.CanAddr() {
+		// a Config passed by value: use an addressable copy sharing its settings
+		tmp := reflect.New(tConfig).Elem()
+		tmp.Set(vFrom)
+		vFrom = tmp
+	}
+
 	switch vFrom.Type() {
 	case tConfig:
 		return vFrom.Addr().Interface().(*Config), nil
